@@ -207,6 +207,7 @@ def installed(streams, clock=None, sandbox=None, capture=None, sync_threads=True
 
     # Fresh process-global loader state for every run.
     fresh_loader_state()
+    fresh_validation_state()
     if sync_threads:
         from .threads import SyncThreading
         sync = SyncThreading()
@@ -240,6 +241,53 @@ def fresh_loader_state():
     templ.TemplateHandler.loading.clear()
 
 
+_VALIDATION_IMPORT_STATE = {}
+
+
+def _copy_container(val):
+    if isinstance(val, dict):
+        return {k: _copy_container(v) for k, v in val.items()}
+    if isinstance(val, (set, list)):
+        return type(val)(val)
+    return val
+
+
+def _restore_container(live, saved):
+    """Bring a class-level container back to its import-time content, in place (identity kept)."""
+    if isinstance(saved, dict):
+        for k in list(live):
+            if k not in saved:
+                del live[k]
+        for k, v in saved.items():
+            if k in live and isinstance(v, (dict, set, list)) and type(live[k]) is type(v):
+                _restore_container(live[k], v)
+            else:
+                live[k] = _copy_container(v)
+    elif isinstance(saved, set):
+        live.clear()
+        live.update(saved)
+    elif isinstance(saved, list):
+        live[:] = saved
+
+
+def fresh_validation_state():
+    """Every class-level container of odml.validation.Validation (the default rule registry and
+    whatever else a change adds next to it) starts each run with its import-time content: a run
+    must not depend on the runs the same worker process executed before it.  Pollution *within*
+    a run is what the C19 monitors look for."""
+    from odml.validation import Validation
+    if not _VALIDATION_IMPORT_STATE:
+        for name, val in vars(Validation).items():
+            if isinstance(val, (dict, set, list)):
+                _VALIDATION_IMPORT_STATE[name] = _copy_container(val)
+    for name, saved in _VALIDATION_IMPORT_STATE.items():
+        live = vars(Validation).get(name)
+        if type(live) is type(saved):
+            _restore_container(live, saved)
+        else:
+            setattr(Validation, name, _copy_container(saved))
+
+
 class Env(object):
     def __init__(self, streams, clock, sandbox, capture):
         self.streams = streams
@@ -248,11 +296,19 @@ class Env(object):
         self.capture = capture
 
 
-def validation_fingerprint():
+def validation_fingerprint(handlers=None):
     """Default validation registry: class key -> sorted handler names."""
     from odml.validation import Validation
+    handlers = Validation._handlers if handlers is None else handlers
     out = {}
-    for key in sorted(Validation._handlers):
+    for key in sorted(handlers):
         out[key] = sorted("%s.%s" % (h.__module__, getattr(h, "__qualname__", h.__name__))
-                          for h in Validation._handlers[key])
+                          for h in handlers[key])
     return out
+
+
+def import_time_fingerprint():
+    """The default registry as it was when odml.validation had just been imported."""
+    if not _VALIDATION_IMPORT_STATE:
+        fresh_validation_state()
+    return validation_fingerprint(_VALIDATION_IMPORT_STATE.get("_handlers", {}))
